@@ -56,6 +56,7 @@ V_DERIVE = [
     ('Vector.fillna', '{x}.fillna(0)', 'V', 0),
     ('Vector.rshift-vector', '{x} >> {w}', 'T', 1),
     ('Vector.rshift-list', '{x} >> [7, 8, 9]', 'T', 0),
+    ('Vector.rshift-list-short', '{x} >> [7, 8]', 'T', 0),      # unequal lengths: not a table
     ('Table.ctor-list', 'Table([{x}, {w}])', 'T', 1),
     ('Table.ctor-dict-lists', "Table({{'p': list({x}), 'q': list({w})}})", 'T', 0),
     ('Vector.ctor-nested', 'Vector([{x}, {w}])', 'T', 0),
@@ -97,6 +98,7 @@ T_DERIVE = [
     ('Table.rshift-dict-vector', "{x} >> {{'c': {w}}}", 'T', 1),
     ('Table.rshift-dict-list', "{x} >> {{'c': [7, 8, 9]}}", 'T', 0),
     ('Table.rshift-list', '{x} >> [7, 8, 9]', 'T', 0),
+    ('Table.rshift-list-short', '{x} >> [7, 8]', 'T', 0),       # unequal lengths: not a table
     ('Table.rshift-table', '{x} >> {u}', 'T', 0),
     ('Table.lshift-row', '{x} << [7, 8]', 'T', 1),
     ('Table.lshift-table', '{x} << {u}', 'T', 0),
@@ -153,6 +155,12 @@ DETACH = {'Table.setattr-vector': 'a', 'Table.setattr-list': 'a', 'Table.setattr
           'Table.setattr-indexed-list': 'b'}
 
 
+# near-duplicates of other alphabet entries: exercised in single-step histories and in the thorough tier only
+LIGHT = {'Vector.neg', 'Vector.T', 'Vector.cast', 'Vector.fillna', 'Vector.getitem-slice-full', 'Vector.setitem-negint',
+         'Table.join', 'Table.full_join', 'Table.window', 'Table.eq-scalar', 'Table.setitem-cell-name',
+         'Table.view-setitem-name', 'Table.setitem-row-plain', 'Table.getitem-indexvec', 'Vector.getitem-index'}
+
+
 def _steps(env, k, last, core, vec_targets):
     """All steps available in abstract environment env ({name: 'V'|'T'}) as step number k."""
     R = f'r{k}'
@@ -161,6 +169,8 @@ def _steps(env, k, last, core, vec_targets):
     out = []
 
     def emit(op, tmpl, x, res, cls, extra_kind):
+        if core == 'nolight' and op in LIGHT:
+            return
         if '{w}' in tmpl:
             ws = [w for w in vs if w != x]
             if op not in ALL_W and ws:
@@ -183,20 +193,20 @@ def _steps(env, k, last, core, vec_targets):
         if vec_targets is not None and x in ('v0', 'v1', 'v2') and x not in vec_targets:
             continue
         for op, tmpl, res, c in V_DERIVE:
-            if c or not core:
+            if c or core in (False, 'nolight'):
                 emit(op, tmpl, x, res, 'derive', None)
         for op, tmpl, cls, c in V_WRITE:
-            if c or not core:
+            if c or core in (False, 'nolight'):
                 emit(op, tmpl, x, None, cls, None)
         if last:
             for op, tmpl in V_READ:
                 emit(op, tmpl, x, None, 'read', None)
     for x in ts:
         for op, tmpl, res, c in T_DERIVE:
-            if c or not core:
+            if c or core in (False, 'nolight'):
                 emit(op, tmpl, x, res, 'derive', None)
         for op, tmpl, cls, c in T_WRITE:
-            if c or not core:
+            if c or core in (False, 'nolight'):
                 emit(op, tmpl, x, None, cls, None)
         if last:
             for op, tmpl in T_READ:
@@ -225,7 +235,7 @@ def _histories(n, core, vec_targets, reads=True):
 def cases(tier, seed):
     if tier == 'quick':
         plan = [(1, False, None, list(SETUPS), True),
-                (2, False, ('v0', 'v2'), ['rshift', 'ctor-list'], False)]
+                (2, 'nolight', ('v0', 'v2'), ['rshift', 'ctor-list'], False)]
     else:
         plan = [(1, False, None, list(SETUPS), True),
                 (2, False, None, list(SETUPS), True),
@@ -239,6 +249,14 @@ def cases(tier, seed):
 # --------------------------------------------------------------------------------------------
 # monitor
 # --------------------------------------------------------------------------------------------
+def _truthful(o):
+    """harness.truthful, robust against values whose repr raises while the message is rendered."""
+    try:
+        return truthful(o)
+    except Exception as e:
+        return f'dtype does not describe the contents (rendering the offending value raised {type(e).__name__})'
+
+
 _CODE = {}
 
 
@@ -345,17 +363,18 @@ def evaluate(case):
     views = {}           # handle name -> (table name, column name)
     renamed = set()      # tables on which a rename happened (column names no longer static)
     bad = set()          # objects already reported as violating C03 (do not cascade)
+    nested = set()       # results that were meant to be tables but are plain vectors of vectors: observed only
     snap = {n: obs(o) for n, o in env.items()}
     done = []
     for st in case['hist']:
-        if any(o not in env for o in st['operands']):
-            break        # an earlier step failed to produce this operand: rest of history undefined
+        if any(o not in env or o in nested for o in st['operands']):
+            break        # an earlier step did not produce this operand (or not a table): rest of history undefined
         op, cls, tgt = st['op'], st['cls'], st['tgt']
         exc = None
         try:
             exec(_compiled(st['src']), _G, env)
         except Exception as e:
-            exc = e
+            exc = type(e)     # (keeping the exception object would keep this frame and every operand alive)
         done.append(st['src'])
         hist = '; '.join(done)
         res = st.get('res')
@@ -374,12 +393,29 @@ def evaluate(case):
                 allowed.update(h for h, (pt, pc) in views.items() if pt == ptab and pc == pcol)
             allowed.update(h for h, (pt, pc) in views.items() if pt == tgt)
         tainted = any(o in bad for o in st['operands'])   # an operand already violated C03 earlier
+        # this step relates its operands to each other (most recent relation first)
+        if res is not None:
+            lab = op
+            if st['kind'] == 'T' and not isinstance(env[res], Table):
+                lab = op + '~nested-vector'
+                nested.add(res)
+            for o in st['operands']:
+                _link(graph, res, o, lab)
+        elif len(st['operands']) > 1:
+            for o in st['operands'][1:]:
+                _link(graph, tgt, o, op)
+        # operands, the tables their column handles belong to, and the column handles of operand tables
+        opgroup = set(st['operands'])
+        for o in st['operands']:
+            if o in views:
+                opgroup.add(views[o][0])
+            opgroup.update(h for h, (pt, pc) in views.items() if pt == o)
         now = {}
         for n, o in env.items():
             now[n] = obs(o)
             if n == res or n in allowed:
                 if not (n in allowed and cls == 'rename'):
-                    m = truthful(o)
+                    m = _truthful(o)
                     if m:
                         if not tainted and n not in bad:
                             fails.append(Fail(f'C03:{op}:truthful', f'{hist}: {m}', None, now[n]))
@@ -389,7 +425,7 @@ def evaluate(case):
                 continue
             # a forbidden change
             in_group = (n == tgt or (tgt in views and views[tgt][0] == n) or (n in views and views[n][0] == tgt))
-            if isinstance(exc, AliasError):
+            if exc is not None and issubclass(exc, AliasError):
                 if _really_shared(env, tgt):
                     key = f'C01:{op}:alias-refusal-changed-state'
                 else:
@@ -399,30 +435,25 @@ def evaluate(case):
                 what = f'{hist}  raised AliasError but {n} changed'
             elif exc is not None and in_group:
                 key = f'C01:{op}:failed-op-changed-target'
-                what = f'{hist}  raised {type(exc).__name__} but {n} changed'
+                what = f'{hist}  raised {exc.__name__} but {n} changed'
             elif cls in ('derive', 'read'):
-                key = f'C01:{op}:' + ('operand-changed' if n in st['operands'] else 'bystander-changed')
+                key = f'C01:{op}:' + ('operand-changed' if n in opgroup else 'bystander-changed')
                 what = f'{hist}  returns a new object / is a read, but {n} changed'
-            elif n in st['operands']:
+            elif n in opgroup:
                 key = f'C01:{op}:operand-changed'
                 what = f'{hist}  writes through {tgt} only, but operand {n} changed'
             else:
                 p = _path(graph, tgt, n)
-                rel = 'unrelated' if p is None else '+'.join(p)
+                rel = 'unrelated' if not p else p[-1]     # the derivation through which the changed object is reached
                 key = f'C01:leak:{cls}:{rel}'
-                what = f'{hist}  writes through {tgt} only' + (f' (and raised {type(exc).__name__})' if exc else '') + f', but {n} changed'
+                what = (f'{hist}  writes through {tgt} only' + (f' (and raised {exc.__name__})' if exc else '') +
+                        f', but {n} changed (related by: {"+".join(p) if p else "nothing"})')
             fails.append(Fail(key, what, snap[n], now[n]))
         snap = now
         # bookkeeping for later steps
         if exc is None:
-            if res is not None:
-                for o in st['operands']:
-                    _link(graph, res, o, op)
-                if op in VIEW_COL:
-                    views[res] = (tgt, VIEW_COL[op])
-            elif len(st['operands']) > 1:
-                for o in st['operands'][1:]:
-                    _link(graph, tgt, o, op)
+            if res is not None and op in VIEW_COL:
+                views[res] = (tgt, VIEW_COL[op])
             if op in DETACH and tgt not in renamed:
                 for h in [h for h, (pt, pc) in views.items() if pt == tgt and pc == DETACH[op]]:
                     del views[h]
@@ -449,7 +480,7 @@ if __name__ == '__main__':
               'live column handle/attribute and indexed-attribute assignment/rename, incl. refused variants), pure reads in '
               'last position; after every step every live object is compared with its pre-step snapshot under the frame rule '
               'of the statement. distinct = distinct (setup, op-name sequence) containing a write',
-         bound=lambda tier: ({'max_steps': 2, 'len1_setups': 5, 'len2_setups': 2, 'len2_vector_targets': 'v0,v2+derived', 'len2_reads': False}
+         bound=lambda tier: ({'max_steps': 2, 'len1_setups': 5, 'len2_setups': 2, 'len2_vector_targets': 'v0,v2+derived', 'len2_reads': False, 'len2_alphabet': 'minus 15 near-duplicate ops'}
                              if tier == 'quick' else
                              {'max_steps': 3, 'len1_setups': 5, 'len2_setups': 5, 'len3_setups': 2,
                               'len3_alphabet': 'core subset (28 ops)'}),
